@@ -147,16 +147,16 @@ type gOp struct {
 	Conds  gConds
 	Body   map[string]interface{}
 	// compose
-	Srcs     []string
-	SrcGens  []*string
-	DstMeta  map[string]interface{}
-	NoDest   bool
-	DstB     string
-	DstN     string
-	ListQ    url.Values
-	BadMd5   bool
-	Resum    *resumPlan
-	Between  *gOp // resumable upload: another request issued between initiation and completion
+	Srcs    []string
+	SrcGens []*string
+	DstMeta map[string]interface{}
+	NoDest  bool
+	DstB    string
+	DstN    string
+	ListQ   url.Values
+	BadMd5  bool
+	Resum   *resumPlan
+	Between *gOp // resumable upload: another request issued between initiation and completion
 	// Folder: the name was never uploaded and is a "/"-prefix of stored names; in the file store
 	// it is not representable as an object, so any error status is accepted (404 otherwise).
 	Folder bool
